@@ -13,13 +13,13 @@ META = {
     "level": "proof",
     "design_ref": "DESIGN.md §6 C01",
     "text": "The same template text and value go to the real code (Template::Render on an exact-size buffer; ASan+UBSan+LSan, per-batch timeout) and to the compiled Lean model; the rendered text and the parsed tag tree must be identical, and the real code must never produce a sanitizer report, a signal or a hang.  Any fault of the real code is a C01 failure with the input line and the sanitizer stack as replay.",
-    "note": "Trusted: Lean kernel for the theorems; g++ as translator of the pattern tables; the harness; ASan/UBSan semantics of 'fault'.  Compared domain: integer-valued math, no sort=/group= (the model driver does not format reals nor sort/group); those constructs are still run on the real code for faults (stream g3).",
+    "note": "Trusted: Lean kernel for the theorems; g++ as translator of the pattern tables; the harness; ASan/UBSan semantics of 'fault'.  Compared domain: integer-valued math, group= through the GroupBy model of C18, no sort= (the model driver does not format reals nor sort); those constructs are still run on the real code for faults (stream g3).",
 }
 
 THEOREMS = ["Qentem.Props.C01." + t for t in [
     "tables_width_independent", "finder_safe_total", "expr_scan_safe", "render_safe_of_wf",
     "parse_wf_varraw", "render_safe_varraw", "parse_wf_inline", "render_safe_inline",
-    "parse_text", "render_text"]]
+    "parse_text", "render_text", "checkLoopVariable_safe", "expr_scan_total"]]
 OPEN_STATEMENTS = ["Qentem.Props.C01.ParseWF (what parse returns is well-formed) for contents with loop / if / inline-if / svar tags: evaluated per run through the driver op tplwf on every generated template",
                    "Qentem.Props.C01.ParseSafe / RenderSafe for those contents: decided per run by the sanitizer streams and the model correspondence"]
 
@@ -480,6 +480,9 @@ class TG:
                 atts.append("sort=%s%s%s" % (q, rng.choice(["ascend", "descend", "a", "", "x"]), q))
             if rng.random() < 0.4:
                 atts.append("group=%s%s%s" % (q, rng.choice(["k", "p", "a", "0", "zz", ""]), q))
+        elif rng.random() < 0.12:
+            # group= is compared too: the driver's groupBy is the GroupBy model (Qentem.Value.groupByTmpl)
+            atts.append("group=%s%s%s" % (q, rng.choice(["k", "p", "a", "0", "zz", ""]), q))
         rng.shuffle(atts)
         head = "<loop" + "".join(rng.choice([" ", " ", "  ", "\n"]) + a for a in atts) + self.sp() + ">"
         if name is not None:
@@ -898,6 +901,60 @@ def describe(line):
 
 # ------------------------------------------------------------------------------------------------
 
+# ---- block tags nested 7..13 deep (Level = number of enclosing block tags): loops at the 8/9 boundary ----
+_DEEPVARS = ["Xa", "Xb", "Xc", "Xd"]
+
+
+def deep_template(rng):
+    depth = rng.choice([7, 8, 8, 9, 9, 9, 10, 10, 11, 12, 13])
+    n_outer = rng.randrange(2, 4)
+    outer = ("a", [("n", rng.randrange(0, 30)) for _ in range(n_outer)]) if rng.random() < 0.6 else \
+        ("o", [(U(k), ("n", rng.randrange(0, 30))) for k in rng.sample(["p", "q", "k", "d"], n_outer)])
+    inner = ("a", [("s", U(rng.choice(["x", "y", "<z>", "w"]))) for _ in range(rng.randrange(1, 4))])
+    doc = ("o", [(U("l"), outer), (U("m"), inner), (U("n"), ("n", rng.randrange(1, 9)))])
+    mid = ["I"] * (depth - 2)
+    for pos in rng.sample(range(depth - 2), rng.randrange(0, 3)):
+        mid[pos] = "L"
+    kinds = ["L"] + mid + ["L"]
+    names, j = [], 0
+    for k in kinds:
+        names.append(_DEEPVARS[j] if k == "L" else None)
+        j += (k == "L")
+    used = [v for v in names if v]
+
+    def build(i):
+        if i == len(kinds):
+            return "[" + "".join("{var:%s}" % v for v in used) + "]"
+        body = build(i + 1) + ("{var:%s};" % names[0] if rng.random() < 0.7 else "")
+        if kinds[i] == "L":
+            st = "l" if i == 0 else ("m" if i == len(kinds) - 1 or rng.random() < 0.5 else "l")
+            return '<loop set="%s" value="%s">%s</loop>' % (st, names[i], body)
+        return '<if case="%s">%s</if>' % (rng.choice(["1", "{var:n}", "2 > 1", "{var:%s} >= 0" % names[0]]), body)
+    return build(0), doc
+
+
+# ---- super-variable phrases with `{u}`, u a non-digit unit whose low byte is 0x30..0x39 ----
+_WIDE16 = [0x0130, 0x0131, 0x0430, 0x0431, 0x0433, 0x0439, 0x0630, 0x0633, 0x0639, 0x3030, 0x3031, 0xFF30, 0xFF35]
+_WIDE32 = [0x10030, 0x10031, 0x1F630, 0x10FF39]
+
+
+def wide_phrase_item(rng, w):
+    pool = _WIDE16 + (_WIDE32 if w in ("4", "W") else [])
+    phrase = []
+    for _ in range(rng.randrange(1, 4)):
+        x = rng.random()
+        if x < 0.6:
+            phrase += [123, rng.choice(pool), 125]
+        elif x < 0.8:
+            phrase += [123, 48 + rng.randrange(0, 6), 125]
+        else:
+            phrase += [rng.choice(pool), rng.choice([97, 32, 123, 125])]
+    nargs = rng.randrange(4, 10)
+    doc = ("o", [(U("ph"), ("s", phrase)), (U("a"), ("n", 7)), (U("b"), ("s", U("B")))])
+    t = "{svar:ph" + "".join(", " + rng.choice(["{var:a}", "{raw:b}", "{math:1+1}"]) for _ in range(nargs)) + "}"
+    return (w, enc(doc), U(t))
+
+
 def gen_streams(ctx):
     """returns {stream: [(w, doc string, units)]} for the compared streams and the C++-only ones"""
     rng = ctx.rng
@@ -918,6 +975,10 @@ def gen_streams(ctx):
         if i % 3 == 0:
             root = gen_root(rng, big=True)
         well.append(("1", enc(root), U(TG(rng, root, nomath=True).template())))
+    for _ in range(400 if not th else 3000):
+        t, d = deep_template(rng)
+        well.append(("1", enc(d), U(t)))
+        base.append((t, d))
     # a few templates against every kind of root
     for t, _ in base[:60]:
         for d in (("u",), ("z",), ("t",), ("n", 5), ("i", -5), ("s", U("x{0}")), ("a", []), ("o", []), ("a", [("u",)]), ("o", [(U("a"), ("u",))])):
@@ -990,6 +1051,8 @@ def gen_streams(ctx):
                     out.append((w, enc(tree), [x & mask for x in uu]))
         return out
     well_w = wide(well, 5 if not th else 1)
+    for _ in range(600 if not th else 4000):
+        well_w.append(wide_phrase_item(rng, rng.choice("24W")))
     mal_w = wide(mal, 5 if not th else 4)
     g3_w = wide(g3, 5 if not th else 3)
     # negative wchar_t units (>= 0x80000000) are outside the generated domain; two probes on the real
@@ -1211,7 +1274,7 @@ def run(ctx):
     ctx.correspond("huge", [huge_lines[j][:120] + "...(%d units)" % len(line_units(huge_lines[j])) for j in hk], [h_impl[j] for j in hk], [h_model[j] for j in hk])
     ctx.assumptions += [
         "code units modelled as Nat; the four widths are exercised by the harness, units are masked to the width by the generator",
-        "compared domain: integer-valued math, no sort=/group= (run on the real code only, stream g3)",
+        "compared domain: integer-valued math, group= (GroupBy model of C18), no sort= (run on the real code only, stream g3)",
         "recursion depth of parse/render (stack exhaustion) and allocation failure are not exhibited (nesting <= 17 quick / 300 thorough)",
     ]
 
